@@ -11,3 +11,37 @@ Print Assumptions C09_drop_fwd.
 Theorem C09_drop_bwd : forall (atom : Type) (dead : atom -> Prop) (F : Type) (fsat : interp atom -> interp atom -> F -> Prop), (forall (H T H' T' : interp atom) (f : F), agree_live atom dead H H' -> agree_live atom dead T T' -> fsat H T f <-> fsat H' T' f) -> forall (crule : Type) (csat : interp atom -> interp atom -> crule -> Prop), (forall (H T H' T' : interp atom) (r : crule), agree_live atom dead H H' -> agree_live atom dead T T' -> csat H T r <-> csat H' T' r) -> forall (C : crule -> Prop) (D : drule atom F -> Prop), (forall r : drule atom F, D r -> dead (dhead_atom atom (dh atom F r))) -> forall T0 : interp atom, (forall a : atom, T0 a -> ~ dead a) -> stable_kept atom crule csat C T0 -> stable_full atom F fsat crule csat C D (extend atom dead F fsat D T0) /\ (forall a : atom, live atom dead (extend atom dead F fsat D T0) a <-> T0 a).
 Proof. exact (@Drop.drop_bwd). Qed.
 Print Assumptions C09_drop_bwd.
+
+From NGO Require Import Syntax.Ast Sem.Sym Sem.Sat Model.Unused Link.UnusedSem.
+
+Theorem C09_drop_dead_fwd : forall (sym_lt : sym -> sym -> Prop) (dead : pred -> bool) (P : program) (I : list gatom) (T : interp), Ground.simple_prog P = true -> dead_ok dead P = true -> live_facts dead I -> stable sym_lt P I T -> stable sym_lt (drop_dead dead P) I (restr (liveA dead) T).
+Proof. exact (@drop_dead_fwd). Qed.
+Print Assumptions C09_drop_dead_fwd.
+
+Theorem C09_drop_dead_bwd : forall (sym_lt : sym -> sym -> Prop) (dead : pred -> bool) (P : program) (I : list gatom) (T0 : interp), Ground.simple_prog P = true -> dead_ok dead P = true -> heads_defined dead P -> live_facts dead I -> stable sym_lt (drop_dead dead P) I T0 -> exists T : interp, stable sym_lt P I T /\ same (restr (liveA dead) T) T0.
+Proof. exact (@drop_dead_bwd). Qed.
+Print Assumptions C09_drop_dead_bwd.
+
+Theorem C09_drop_dead_predicate_sound : forall (sym_lt : sym -> sym -> Prop) (dead : pred -> bool) (P : program), Ground.simple_prog P = true -> dead_ok dead P = true -> heads_defined dead P -> forall (IN : pred -> Prop) (OUT : gatom -> Prop), (forall p : pred, IN p -> dead p = false) -> (forall a : gatom, OUT a -> liveA dead a) -> equiv_out sym_lt IN OUT P (drop_dead dead P).
+Proof. exact (@drop_dead_predicate_sound). Qed.
+Print Assumptions C09_drop_dead_predicate_sound.
+
+Theorem C09_analyze_usage_used : forall (ins outs : list pred) (st : ustate) (prg : list stmt) (st' : ustate), analyze_usage ins outs st prg = Ok st' -> forall p : pred, In p (used st') <-> In p (flat_map stm_used prg) \/ In p ins \/ In p outs.
+Proof. exact (@analyze_usage_used). Qed.
+Print Assumptions C09_analyze_usage_used.
+
+Theorem C09_analyze_usage_covers_bodies : forall (ins outs : list pred) (st : ustate) (prg : list stmt) (st' : ustate), analyze_usage ins outs st prg = Ok st' -> (forall (stm : stmt) (p : pred), In stm prg -> TraverseSpec.in_body p stm -> In p (used st')) /\ (forall p : pred, In p ins -> In p (used st')) /\ (forall p : pred, In p outs -> In p (used st')) /\ (forall (n : string) (a : nat) (b : bool), In (SShowSig n a b) prg -> In (n, a) (used st')).
+Proof. exact (@analyze_usage_covers_bodies). Qed.
+Print Assumptions C09_analyze_usage_covers_bodies.
+
+Theorem C09_remove_unused_shape : forall (st : ustate) (prg : list stmt), remove_unused st prg = filter (fun stm : stmt => negb (head_unused (used st) stm)) prg.
+Proof. exact (@remove_unused_shape). Qed.
+Print Assumptions C09_remove_unused_shape.
+
+Theorem C09_remove_unused_fwd : forall (sym_lt : sym -> sym -> Prop) (ins outs : list pred) (st st' : ustate) (P : program), unused_fragment P = true -> analyze_usage ins outs st P = Ok st' -> forall (I : list gatom) (T : interp), facts_over (fun p : string * nat => In p ins) I -> stable sym_lt P I T -> stable sym_lt (remove_unused st' P) I (restr (fun a : gatom => In (gpred a) (used st')) T).
+Proof. exact (@remove_unused_fwd). Qed.
+Print Assumptions C09_remove_unused_fwd.
+
+Theorem C09_remove_unused_sound : forall (sym_lt : sym -> sym -> Prop) (ins outs : list pred) (st st' : ustate) (P : program), unused_fragment P = true -> analyze_usage ins outs st P = Ok st' -> heads_defined (dead_of (used st')) P -> forall (IN : pred -> Prop) (OUT : gatom -> Prop), (forall p : pred, IN p -> In p ins) -> (forall a : gatom, OUT a -> In (gpred a) outs \/ In (gpred a) (used st')) -> equiv_out sym_lt IN OUT P (remove_unused st' P).
+Proof. exact (@remove_unused_sound). Qed.
+Print Assumptions C09_remove_unused_sound.
